@@ -88,7 +88,8 @@ def _case(draw):
     ngas = draw(st.integers(1, 3))
     c['gases'] = []
     for i in range(ngas):
-        gt = draw(st.sampled_from(['constant', 'twolayer', 'twopoint']))
+        # twopoint is an open known finding (undiscoverable class): kept rare so the search goes on behind it
+        gt = draw(st.sampled_from(['constant', 'twolayer'] * 5 + ['twopoint']))
         c['gases'].append({'type': gt, 'mix_ratio': draw(_opt(f(-8, -3))), 'mix_ratio_surface': draw(_opt(f(-6, -3))),
                            'mix_ratio_top': draw(_opt(f(-9, -5))), 'mix_ratio_P': draw(_opt(f(1.0, 4.0))),
                            'mix_ratio_smoothing': draw(_opt(st.integers(5, 40)))})
@@ -525,7 +526,10 @@ def check_sections(out, c, tmp, run_cli):
             if '/taurex/' in tb.tb_frame.f_code.co_filename:
                 where_ = '%s:%s' % (os.path.basename(tb.tb_frame.f_code.co_filename), tb.tb_frame.f_code.co_name)
             tb = tb.tb_next
-        out.fail('builds@raises:%s:%s' % (type(failed).__name__, where_), '%s: %s\n%s' % (type(failed).__name__, failed, '\n'.join(lines[4:40])))
+        disc = ''
+        if 'twopoint' in str(failed) and any(g['type'] == 'twopoint' for g in c['gases']):
+            disc = 'gas:twopoint@'
+        out.fail('builds@%sraises:%s:%s' % (disc, type(failed).__name__, where_), '%s: %s\n%s' % (type(failed).__name__, failed, '\n'.join(lines[4:40])))
         return False
     # ---- every key given reached its constructor; omitted keys are the defaults --------------------------
     out.applies('keys-reach-constructor')
